@@ -177,6 +177,48 @@ fn json_documents(shape: Shape) -> Vec<(J, Vec<Option<J>>)> {
     docs
 }
 
+/// Member names that real explorer answers carry next to the extracted one (blockchair stats,
+/// bitcore / blockcypher block and chain objects): a transform tempted to fall back on one of
+/// them would make the result depend on "members other than the one extracted".
+const SIBLING_NAMES: [&str; 20] = [
+    "blocks", "transactions", "best_block_hash", "best_block_time", "mempool_transactions", "difficulty",
+    "hash", "time", "version", "size", "nonce", "bits", "confirmations", "transactionCount",
+    "previousBlockHash", "name", "peer_count", "last_fork_height", "block_height", "tip_height",
+];
+
+/// For every leaf value at the extracted path: one realistic sibling member with a tempting
+/// number (0, 1, 800001), in front of and behind the extracted member, at the same level and
+/// one level up.
+fn sibling_documents(shape: Shape) -> Vec<(J, Option<J>)> {
+    let key = match shape {
+        Shape::FirstOfArray | Shape::TopHeight => "height",
+        Shape::DataBest => "best_block_height",
+        Shape::Text => unreachable!(),
+    };
+    let wrap = |inner: J| -> J {
+        match shape {
+            Shape::FirstOfArray => J::Arr(vec![inner]),
+            Shape::DataBest => J::Obj(vec![("data", inner)]),
+            _ => inner,
+        }
+    };
+    let mut docs = vec![];
+    for v in leaves() {
+        for name in SIBLING_NAMES {
+            if name == key {
+                continue;
+            }
+            for n in ["0", "1", "800001"] {
+                docs.push((wrap(J::Obj(vec![(name, J::Num(n)), (key, v.clone())])), Some(v.clone())));
+                docs.push((wrap(J::Obj(vec![(key, v.clone()), (name, J::Num(n))])), Some(v.clone())));
+                // the extracted member missing altogether
+                docs.push((wrap(J::Obj(vec![(name, J::Num(n))])), None));
+            }
+        }
+    }
+    docs
+}
+
 fn text_bodies() -> Vec<Vec<u8>> {
     let alphabet: Vec<u8> = vec![b'0', b'1', b'9', b'+', b'-', b' ', b'\n', b'.', b'e', b'a', 0xff];
     let mut all: Vec<Vec<u8>> = vec![vec![]];
@@ -484,6 +526,26 @@ pub fn run(tier: &str) -> i32 {
                         out.count(if got == b"{\"height\":null}" { "json_documents_null" } else if got.is_empty() { "json_documents_refused" } else { "json_documents_extracted" });
                     }
                 }
+                // realistic sibling members: the result depends on the extracted member alone
+                for (doc, cand) in sibling_documents(shape) {
+                    let text = render(&doc, Style::Compact);
+                    distinct.insert(fp64(text.as_bytes()));
+                    let Some(r) = apply(&mut out, &name, &f, &ok, &hsets[0], text.as_bytes(), "sibling members") else { continue };
+                    let mut want = vec![canonical(cand.as_ref().and_then(literal_u64))];
+                    if exotic(&doc) {
+                        want.push(vec![]);
+                    }
+                    if !want.contains(&r.body) {
+                        out.set_history(json!({"transform": name, "document": text}));
+                        out.violation(
+                            "result-depends-on-another-member",
+                            None,
+                            json!({"result": String::from_utf8_lossy(&r.body), "expected_one_of": want.iter().map(|w| String::from_utf8_lossy(w).to_string()).collect::<Vec<_>>()}),
+                        );
+                    } else {
+                        out.count("documents_with_realistic_sibling_members");
+                    }
+                }
             }
         }
         out.leaves += 1;
@@ -493,13 +555,14 @@ pub fn run(tier: &str) -> i32 {
     out.samples.push(json!({"transform": "transform_bitcoin_mempool", "body": "800000\\n", "expected": "empty body"}));
     rep.out.merge(out);
     rep.evaluations = rep.out.states;
-    rep.rule = "all 10 exported transform functions + the testnet mempool endpoint object x statuses {0,199,200,201,404,500,2^64} x header sets (all subsets of size <= 2 of 18 realistic headers, duplicates, 50 headers, all 18); text endpoints: all strings of length <= 4 over {0,1,9,+,-,space,newline,.,e,a,0xFF} plus 2^64-1, 2^64, leading zeros, trailing newline, non-ASCII digit; JSON endpoints: 16 leaf values placed at / next to / instead of the extracted path, with extra members, both member orders, duplicate keys, in 4 whitespace styles, every byte prefix, an invalid UTF-8 byte at every position; long bodies: every length up to 700 (2600 thorough) bytes of 1/2/3/4-byte characters with 0-3 bytes of ASCII padding, alone and inside an extra member of a valid document; distinct = distinct body bytes".into();
+    rep.rule = "all 10 exported transform functions + the testnet mempool endpoint object x statuses {0,199,200,201,404,500,2^64} x header sets (all subsets of size <= 2 of 18 realistic headers, duplicates, 50 headers, all 18); text endpoints: all strings of length <= 4 over {0,1,9,+,-,space,newline,.,e,a,0xFF} plus 2^64-1, 2^64, leading zeros, trailing newline, non-ASCII digit; JSON endpoints: 16 leaf values placed at / next to / instead of the extracted path, with extra members (incl. 20 member names real explorer answers carry, with tempting numbers, also when the extracted member is missing), both member orders, duplicate keys, in 4 whitespace styles, every byte prefix, an invalid UTF-8 byte at every position; long bodies: every length up to 700 (2600 thorough) bytes of 1/2/3/4-byte characters with 0-3 bytes of ASCII padding, alone and inside an extra member of a valid document; distinct = distinct body bytes".into();
     rep.bounds = json!({"tier": tier});
     rep.assume("documents are rendered from the harness's own AST, so the expected value at the path is known without a JSON parser");
     rep.assume("duplicate keys: either occurrence may be extracted; a leading '+' in a text body and numbers beyond f64 (1e400) are undecided");
     rep.floor("text_bodies_extracted", 500);
     rep.floor("text_bodies_refused", 5000);
     rep.floor("json_documents_extracted", 100);
+    rep.floor("documents_with_realistic_sibling_members", 5000);
     rep.floor("json_documents_null", 200);
     rep.floor("invalid_utf8_bodies_refused", 1000);
     rep.floor("long_bodies", 10_000);
